@@ -383,7 +383,7 @@ def run(ctx):
     for case in load_regress(ctx.prop, name):
         ctx.record(case, True, ('regress',))
         ctx._run_one(name, check_case, case)  # pylint: disable=protected-access
-    n = ctx.n(480, 8000)
+    n = ctx.n(960, 8000)
     strat = st.tuples(st.one_of(gen_cfg.model_and_spec(),
                                 gen_cfg.model_and_spec(want_mc=True),
                                 gen_cfg.model_and_spec(want_mixed=True, force=['many_ports'])),
